@@ -28,12 +28,12 @@ type VerifC35SendParams struct {
 
 // VerifC35SendResult is the observation of one execution.
 type VerifC35SendResult struct {
-	Complaints []string       // model receiver's findings (window or packet size exceeded, corrupt stream)
-	Received   map[uint32]int // bytes received per stream
-	WriterN    []int
-	WriterErr  []string
-	Packets    int
-	Adjusts    int
+	Complaints  []string       // model receiver's findings (window or packet size exceeded, corrupt stream)
+	Received    map[uint32]int // bytes received per stream
+	WriterN     []int
+	WriterErr   []string
+	Packets     int
+	Adjusts     int
 	MaxInFlight uint32
 }
 
@@ -232,10 +232,11 @@ func VerifC35Send(p VerifC35SendParams) *VerifC35SendResult {
 // ---------------------------------------------------------------------------
 
 type VerifC35RecvParams struct {
-	Inbound   bool
-	Packets   []VerifC35Pkt // what the model sender sends, in order
-	Readers   []VerifC35Reader
-	SendEOF   bool
+	Inbound bool
+	Packets []VerifC35Pkt // what the model sender sends, in order
+	Prefill int           // the first Prefill packets are sent (within the window) before any reader starts; the mux digests them, then the explorer's mark is set
+	Readers []VerifC35Reader
+	SendEOF bool
 }
 
 type VerifC35Pkt struct {
@@ -249,11 +250,11 @@ type VerifC35Reader struct {
 }
 
 type VerifC35RecvResult struct {
-	Complaints  []string
-	MuxErr      string
-	ReadBytes   map[uint32]int
-	Adjusts     int
-	AdjustTotal uint64
+	Complaints    []string
+	MuxErr        string
+	ReadBytes     map[uint32]int
+	Adjusts       int
+	AdjustTotal   uint64
 	SenderBlocked int // times the model sender had to wait for window
 }
 
@@ -311,35 +312,36 @@ func VerifC35Recv(p VerifC35RecvParams) *VerifC35RecvResult {
 	win := window
 	peerClosed := false
 	// the model sender's input side: WINDOW_ADJUST messages from the implementation
-	go func() {
-		for {
-			pkt, err := b.ReadPacket()
-			if err != nil {
-				mu.Lock()
-				peerClosed = true
-				cond.Broadcast()
-				mu.Unlock()
-				return
-			}
-			if pkt[0] == msgChannelWindowAdjust {
-				var adj windowAdjustMsg
-				if err := Unmarshal(pkt, &adj); err == nil {
+	if p.Prefill == 0 {
+		go func() {
+			for {
+				pkt, err := b.ReadPacket()
+				if err != nil {
 					mu.Lock()
-					res.Adjusts++
-					res.AdjustTotal += uint64(adj.AdditionalBytes)
-					win += adj.AdditionalBytes
+					peerClosed = true
 					cond.Broadcast()
 					mu.Unlock()
+					return
+				}
+				if pkt[0] == msgChannelWindowAdjust {
+					var adj windowAdjustMsg
+					if err := Unmarshal(pkt, &adj); err == nil {
+						mu.Lock()
+						res.Adjusts++
+						res.AdjustTotal += uint64(adj.AdditionalBytes)
+						win += adj.AdditionalBytes
+						cond.Broadcast()
+						mu.Unlock()
+					}
 				}
 			}
-		}
-	}()
+		}()
+	}
 	// the model sender
 	sdone := make(chan struct{})
-	go func() {
-		defer close(sdone)
-		off := map[uint32]int{}
-		for _, k := range p.Packets {
+	off := map[uint32]int{}
+	sendAll := func(pkts []VerifC35Pkt) {
+		for _, k := range pkts {
 			mu.Lock()
 			waited := false
 			for win < uint32(k.N) && !peerClosed {
@@ -379,10 +381,52 @@ func VerifC35Recv(p VerifC35RecvParams) *VerifC35RecvResult {
 				return
 			}
 		}
-		if p.SendEOF {
-			b.WritePacket(Marshal(channelEOFMsg{PeersID: localID}))
+	}
+	var syncPeer func()
+	if p.Prefill > 0 {
+		sendAll(p.Packets[:p.Prefill])
+		verifWaitIdle() // the mux loop has accounted for all of them
+		verifMark()
+		// From here the body itself is the peer: it answers every WINDOW_ADJUST at once with
+		// as much data as the new window allows (one goroutine fewer than the general model,
+		// so "credit sent, data arrives before the receiver has finished its own bookkeeping"
+		// is two deviations away).
+		syncPeer = func() {
+			defer close(sdone)
+			rest := p.Packets[p.Prefill:]
+			for len(rest) > 0 {
+				for len(rest) > 0 && win >= uint32(rest[0].N) {
+					sendAll(rest[:1])
+					rest = rest[1:]
+				}
+				if len(rest) == 0 {
+					break
+				}
+				pkt, err := b.ReadPacket()
+				if err != nil {
+					return
+				}
+				if pkt[0] == msgChannelWindowAdjust {
+					var adj windowAdjustMsg
+					if err := Unmarshal(pkt, &adj); err == nil {
+						mu.Lock()
+						res.Adjusts++
+						res.AdjustTotal += uint64(adj.AdditionalBytes)
+						win += adj.AdditionalBytes
+						mu.Unlock()
+					}
+				}
+			}
 		}
-	}()
+	} else {
+		go func() {
+			defer close(sdone)
+			sendAll(p.Packets)
+			if p.SendEOF {
+				b.WritePacket(Marshal(channelEOFMsg{PeersID: localID}))
+			}
+		}()
+	}
 
 	var wg sync.WaitGroup
 	for _, r := range p.Readers {
@@ -421,6 +465,9 @@ func VerifC35Recv(p VerifC35RecvParams) *VerifC35RecvResult {
 			mu.Unlock()
 		}()
 	}
+	if syncPeer != nil {
+		syncPeer()
+	}
 	wg.Wait()
 	<-sdone
 	m.Close()
@@ -430,4 +477,6 @@ func VerifC35Recv(p VerifC35RecvParams) *VerifC35RecvResult {
 	return res
 }
 
-func putU32(b []byte, v uint32) { b[0], b[1], b[2], b[3] = byte(v>>24), byte(v>>16), byte(v>>8), byte(v) }
+func putU32(b []byte, v uint32) {
+	b[0], b[1], b[2], b[3] = byte(v>>24), byte(v>>16), byte(v>>8), byte(v)
+}
